@@ -880,3 +880,67 @@ Proof.
 Qed.
 
 End HistShape.
+
+(* ================================================================ where the rows of L U come from *)
+Section HistOrigin.
+Context {A : Arith}.
+Notation T := (T A).
+Notation matrix := (matrix A).
+
+(* where an entry came from: before its first update it stood untouched at least m1 rows below that stage *)
+Lemma fperm_origin_open n m1 (al : matrix) (index : list nat) k i :
+  (forall k', k' < n -> k' + 1 <= nth k' index 0 /\ nth k' index 0 <= fwin n m1 k') ->
+  k <= n -> k <= i -> i < n ->
+  k - length (fhist n m1 al index k i) = 0 \/
+  k - length (fhist n m1 al index k i) + m1 <= fperm index k i.
+Proof.
+  intros Hix. revert i. induction k as [|k IH]; intros i Hk Hi Hin; [left; reflexivity|]. cbn [fhist fperm].
+  destruct (Hix k ltac:(lia)) as (P1 & P2).
+  assert (Hs : k <= swp k (fpiv index k) i /\ swp k (fpiv index k) i < n).
+  { unfold swp, fpiv, fwin in *. destruct (Nat.eqb_spec i k); [lia|].
+    destruct (Nat.eqb_spec i (nth k index 0 - 1)); lia. }
+  destruct ((k <? i) && (i <? fwin n m1 k)) eqn:W.
+  - rewrite app_length. cbn [length].
+    pose proof (fhist_length_le n m1 al index k (swp k (fpiv index k) i)) as Hlen.
+    destruct (IH (swp k (fpiv index k) i) ltac:(lia) (proj1 Hs) (proj2 Hs)) as [Z|G]; [left; lia|right; lia].
+  - apply andb_false_iff in W. assert (Hw : fwin n m1 k <= i).
+    { destruct W as [W|W]; apply Nat.ltb_ge in W; [lia|exact W]. }
+    assert (Es : swp k (fpiv index k) i = i).
+    { unfold swp, fpiv. destruct (Nat.eqb_spec i k); [lia|]. destruct (Nat.eqb_spec i (nth k index 0 - 1)); [lia|reflexivity]. }
+    rewrite Es.
+    destruct (fhist_beyond n m1 al index k i Hix ltac:(lia) ltac:(unfold fwin in Hw; lia)) as (E0 & E1).
+    rewrite E0, E1. cbn [length]. right. unfold fwin in Hw. lia.
+Qed.
+
+Lemma fperm_settled (index : list nat) n r k :
+  (forall k, k < n -> k + 1 <= nth k index 0) -> r < k -> k <= n ->
+  fperm index k r = fperm index (S r) r.
+Proof.
+  intros Hix Hr. induction k as [|k IH]; intros Hk; [lia|].
+  destruct (Nat.eq_dec k r) as [->|Ne]; [reflexivity|].
+  rewrite <- IH by lia. cbn [fperm]. pose proof (Hix k ltac:(lia)). unfold swp, fpiv.
+  destruct (Nat.eqb_spec r k); [lia|]. destruct (Nat.eqb_spec r (nth k index 0 - 1)); [lia|]. reflexivity.
+Qed.
+
+(* the original row fperm r of the entry settled at r: between (r - c_r) + m1 (unless r - c_r = 0) and r + m1 *)
+Theorem band_history_origin_lemma n m1 (al : matrix) (index : list nat) r :
+  (forall k, k < n -> k + 1 <= nth k index 0 /\ nth k index 0 <= fwin n m1 k) -> r < n ->
+  fperm index n r < n /\ fperm index n r <= r + m1 /\
+  (r - length (fhist n m1 al index n r) = 0 \/ r - length (fhist n m1 al index n r) + m1 <= fperm index n r).
+Proof.
+  intros Hix Hr.
+  assert (Hix' : forall k, k < n -> k + 1 <= nth k index 0) by (intros k Hk; apply Hix; exact Hk).
+  rewrite (fhist_settled n m1 al index r n) by (auto; lia).
+  rewrite (fperm_settled index n r n Hix') by lia. cbn [fhist fperm].
+  rewrite Nat.ltb_irrefl. cbn [andb].
+  destruct (Hix r Hr) as (P1 & P2).
+  assert (Es : swp r (fpiv index r) r = fpiv index r) by (unfold swp; now rewrite Nat.eqb_refl). rewrite Es.
+  assert (Hp : r <= fpiv index r /\ fpiv index r < n /\ fpiv index r <= r + m1) by (unfold fpiv, fwin in *; lia).
+  assert (Hpix : forall k', k' < r -> k' <= fpiv index k').
+  { intros k' Hk'. unfold fpiv. specialize (Hix' k' ltac:(lia)). lia. }
+  pose proof (fperm_le index r (fpiv index r) Hpix (proj1 Hp)) as Hle.
+  split; [lia|]. split; [lia|].
+  apply fperm_origin_open; [exact Hix|lia|lia|lia].
+Qed.
+
+End HistOrigin.
